@@ -27,7 +27,7 @@ for p in $PATCHES; do
   if [ $rc -eq 1 ] && [ "$nv" -gt 0 ]; then verdict=CAUGHT; elif [ $rc -eq 0 ]; then verdict=MISSED; else verdict="MACHINERY(rc=$rc)"; fi
   echo "$name: $verdict exit=$rc violations=$nv wall=$((t1-t0))s signatures: $sigs" >> "$OUT"
   tail -3 "$SCR/$name.log" | cut -c1-300
-  rm -f "$ROOT"/replays/C19-*.json
+  
 done
 rm -rf "$SCR/repo" "$ROOT"/build/alt-c19-*
 cat "$OUT"
